@@ -153,9 +153,24 @@ class Engine:
         """pruning only: decided on the quantifier-free part of the path condition (a weakening, so a
         pruned path is really infeasible; unknown counts as feasible)."""
         self.stats["feas"] += 1
-        s = self.solver(qf=True)
-        s.add(*st.qf_pc())
-        return s.check() != z3.unsat
+        s = self.inc_solver()
+        s.push()
+        try:
+            s.add(*st.qf_pc())
+            return s.check() != z3.unsat
+        finally:
+            s.pop()
+
+    def inc_solver(self):
+        """one persistent solver holding the (quantifier-free) axioms; path conditions are pushed/popped"""
+        key = ("incsolver", len(self.known), len(self.axioms))
+        if getattr(self, "_inc_key", None) != key:
+            s = z3.Solver()
+            s.set("timeout", self.feas_timeout)
+            for a in self.qf_axioms():
+                s.add(a)
+            self._inc, self._inc_key = s, key
+        return self._inc
 
     def valid(self, st, cond, timeout=None):
         """pc => cond  (True only when proved)"""
@@ -164,11 +179,15 @@ class Engine:
             return True
         if z3.is_false(c):
             return False
-        s = self.solver(timeout, qf=True)
-        s.add(*st.qf_pc())
-        s.add(z3.Not(cond))
-        self.stats["feas"] += 1
-        return s.check() == z3.unsat
+        s = self.inc_solver()
+        s.push()
+        try:
+            s.add(*st.qf_pc())
+            s.add(z3.Not(cond))
+            self.stats["feas"] += 1
+            return s.check() == z3.unsat
+        finally:
+            s.pop()
 
     def split(self, st, cond, note=None):
         """-> [(st_true, True)?, (st_false, False)?]  (infeasible sides pruned)"""
